@@ -428,6 +428,72 @@ func init() {
 		}
 		emitList("parentFields", "IsQuotaParentChange: the compared fields", par)
 
+		// ---- the "is the update applied at all" gate: IsQuotaChange, and its two callers
+		var chg []string
+		if fd := get(core, "QuotaInfo", "IsQuotaChange"); fd != nil {
+			ast.Inspect(fd.Body, func(n ast.Node) bool {
+				switch x := n.(type) {
+				case *ast.BinaryExpr:
+					if x.Op == token.NEQ {
+						chg = append(chg, src(x.X)+" != "+src(x.Y))
+					}
+				case *ast.IfStmt:
+					// `if !quotav1.Equals(a, b) { return true }`: the operands as written (a wrapper such as RemoveZeros shows)
+					if u, ok := x.Cond.(*ast.UnaryExpr); ok && u.Op == token.NOT {
+						if c, ok := u.X.(*ast.CallExpr); ok && len(c.Args) == 2 {
+							ret := "?"
+							if len(x.Body.List) == 1 {
+								ret = src(x.Body.List[0])
+							}
+							chg = append(chg, "!"+callName(c)+"("+src(c.Args[0])+", "+src(c.Args[1])+") => "+ret)
+						}
+					}
+				case *ast.ReturnStmt:
+					if len(x.Results) == 1 {
+						if id, ok := x.Results[0].(*ast.Ident); ok && id.Name == "false" {
+							chg = append(chg, "otherwise => return false")
+						}
+					}
+				}
+				return true
+			})
+		}
+		emitList("changeGate", "IsQuotaChange: the comparisons in source order (operands as written)", chg)
+		var gate []string
+		for _, g := range callsWithGuards(get(plug, "Plugin", "OnQuotaUpdate"), "IsQuotaChange") {
+			gate = append(gate, "OnQuotaUpdate: "+g)
+		}
+		oqu := get(plug, "Plugin", "OnQuotaUpdate")
+		if oqu != nil {
+			walk(oqu.Body, func(n ast.Node, stack []ast.Node) {
+				if ifs, ok := n.(*ast.IfStmt); ok && strings.Contains(raw(ifs.Cond), "IsQuotaChange") {
+					body := []string{}
+					for _, st := range ifs.Body.List {
+						if _, ok := st.(*ast.ReturnStmt); ok {
+							body = append(body, "return")
+						}
+					}
+					gate = append(gate, "OnQuotaUpdate: if "+src(ifs.Cond)+" => "+strings.Join(body, ";"))
+				}
+			})
+		}
+		for _, g := range callSeq(oqu, "IsQuotaChange", "UpdateQuota") {
+			gate = append(gate, "OnQuotaUpdate calls "+g)
+		}
+		uq2 := get(core, "GroupQuotaManager", "UpdateQuota")
+		if uq2 != nil {
+			walk(uq2.Body, func(n ast.Node, stack []ast.Node) {
+				if ifs, ok := n.(*ast.IfStmt); ok && strings.Contains(raw(ifs.Cond), "IsQuotaChange") {
+					body := []string{}
+					for _, st := range ifs.Body.List {
+						body = append(body, src(st))
+					}
+					gate = append(gate, "UpdateQuota: "+strings.Join(guards(n, stack), " ; ")+" ; if "+src(ifs.Cond)+" => "+strings.Join(body, ";"))
+				}
+			})
+		}
+		emitList("updateGate", "OnQuotaUpdate / UpdateQuota: where IsQuotaChange decides that an update is dropped", gate)
+
 		// ---- used side of delete / re-parent / rebuild
 		emitList("deleteUsedDelta", "deleteQuotaNoLock: guards => operands of updateGroupDeltaUsedNoLock",
 			callsWithGuards(get(core, "GroupQuotaManager", "deleteQuotaNoLock"), "updateGroupDeltaUsedNoLock"))
